@@ -1,8 +1,155 @@
 /-
-C09 — property theorems (under construction; see DESIGN.md section 8).
+C09 — The will is published exactly when the connection ends without DISCONNECT.
+
+Property theorems only (helper lemmas: `Proofs/BrokerLife*.lean`).  Model:
+`Model/Broker.lean` — `first` (`Session.Init/Update` build the will from the
+CONNECT), `packet … .disconnect` (clears the will flag, then `stop`), `stop`
+(every other end of a connection: peer close, keep-alive expiry, protocol
+error).  The theorems hold for every broker state in which the connection is
+live and its session reference resolves; `Inv` (kept by every event, so true of
+every state reachable from the initial one) guarantees the latter.
 -/
-import Mqtt.Model.Broker
-import Mqtt.Spec.Broker
+import Mqtt.Proofs.BrokerLifeInv
 
 namespace Mqtt.Properties.C09
+open Mqtt.Iface.Broker Mqtt.Model.Broker Mqtt.Proofs.BrokerLife
+
+/-! ### 0. reachable states -/
+
+/-- The invariant holds initially and is kept by every event. -/
+theorem C09_inv (b : B) (e : Ev) : Inv ({} : B) ∧ (Inv b → Inv (step b e).1) :=
+  ⟨inv_init, fun h => inv_step h e⟩
+
+/-- In every state reachable from the initial one, a live connection has a
+session object. -/
+theorem C09_live_has_session (evs : List Ev) (c : Nat) (h : (run {} evs).1.alive c = true) :
+    ∃ cn s, (run {} evs).1.getConn c = some cn ∧ cn.alive = true ∧ (run {} evs).1.getSess cn.sess = some s :=
+  (inv_reachable evs).live h
+
+/-! ### 1. DISCONNECT: never a will -/
+
+/-- A DISCONNECT packet on a live connection produces the close of that
+connection and nothing else — no PUBLISH to anybody, no callback — whatever will
+the session holds; the connection is not live afterwards, so its later socket
+close (`stop`) and any further packet produce nothing either. -/
+theorem C09_disconnect_no_will (b : B) (c : Nat) (cn : Conn) (s : Sess)
+    (hc : b.getConn c = some cn) (ha : cn.alive = true) (hs : b.getSess cn.sess = some s) :
+    (packet b c .disconnect).2 = [.closed c] ∧
+    (packet b c .disconnect).1.alive c = false ∧
+    stop (packet b c .disconnect).1 c = ((packet b c .disconnect).1, []) ∧
+    ∀ p, packet (packet b c .disconnect).1 c p = ((packet b c .disconnect).1, []) := by
+  have hd : (packet b c .disconnect).1.alive c = false := by
+    rw [packet_disconnect_eq b c cn s hc ha hs]; exact stop_not_alive _ c
+  exact ⟨packet_disconnect b c cn s hc ha hs, hd, stop_dead _ c hd, fun p => packet_dead _ c p hd⟩
+
+/-- the same for every reachable state -/
+theorem C09_disconnect_no_will_reachable (evs : List Ev) (c : Nat) (h : (run {} evs).1.alive c = true) :
+    (packet (run {} evs).1 c .disconnect).2 = [.closed c] := by
+  obtain ⟨cn, s, hc, ha, hs⟩ := (inv_reachable evs).live h
+  exact packet_disconnect _ c cn s hc ha hs
+
+/-- non-vacuity: connection 1 holds a will on "w" to which connection 2 and a
+callback listen; DISCONNECT, then the socket close: only the close is emitted. -/
+example :
+    Ex.base2.alive 1 = true ∧
+    (Ex.base2.getSess 1).map (fun s => (s.willFlag, s.will.map (·.p.topic))) = some (true, some Ex.tW) ∧
+    (run Ex.base2 [.packet 1 .disconnect, .close 1]).2 = [[.closed 1], []] := by decide
+
+/-! ### 2. any other end: the will, exactly once -/
+
+/-- `stop` (network drop, keep-alive expiry, protocol error) on a live connection
+whose session has the will flag and will message `w`: the output is the close
+followed by exactly the outputs of the normal publish path (`onPublish`: retain
+step, subscriber lookup, fan-out) for `w`, in the state where `c` is already
+marked closed and its subscriptions are removed.  Afterwards the connection is
+not live: a second `stop` and any packet on `c` emit nothing and change nothing,
+so the will is published once. -/
+theorem C09_will_published_once (b : B) (c : Nat) (cn : Conn) (s : Sess) (w : Msg)
+    (hc : b.getConn c = some cn) (ha : cn.alive = true) (hs : b.getSess cn.sess = some s)
+    (hf : s.willFlag = true) (hw : s.will = some w) :
+    (stop b c).2 = .closed c :: (onPublish (stopBase b c s) w).2.2.1 ∧
+    (stop b c).1.alive c = false ∧
+    stop (stop b c).1 c = ((stop b c).1, []) ∧
+    ∀ p, packet (stop b c).1 c p = ((stop b c).1, []) :=
+  ⟨stop_out_will b c cn s w hc ha hs hf hw, stop_not_alive b c, stop_dead _ c (stop_not_alive b c),
+    fun p => packet_dead _ c p (stop_not_alive b c)⟩
+
+/-- Without a will flag (no will in the CONNECT, or cleared by DISCONNECT) the
+end of the connection publishes nothing. -/
+theorem C09_no_will_no_publish (b : B) (c : Nat) (cn : Conn) (s : Sess)
+    (hc : b.getConn c = some cn) (ha : cn.alive = true) (hs : b.getSess cn.sess = some s)
+    (hf : s.willFlag = false) :
+    (stop b c).2 = [.closed c] :=
+  stop_out_nowill b c cn s hc ha hs hf
+
+/-- `stopBase` is the state the will meets: other connections are as live as
+before, `c` is not, nothing else but the tries differs. -/
+theorem C09_stopBase (b : B) (c : Nat) (s : Sess) :
+    (stopBase b c s).alive c = false ∧ (∀ d, d ≠ c → (stopBase b c s).alive d = b.alive d) ∧
+    (stopBase b c s).sess = b.sess ∧ (stopBase b c s).store = b.store ∧ (stopBase b c s).ctr = b.ctr ∧
+    (stopBase b c s).topics = unsubAll b.topics c s.topics :=
+  ⟨markDead_alive_self b c, fun d hd => markDead_alive_ne b c d hd, rfl, rfl, rfl, rfl⟩
+
+/-- non-vacuity: the peer of connection 1 drops.  Its will (topic "w", payload
+[1], QoS 1) goes to connection 2 at QoS 1 and to the callback at QoS 0, once;
+a second close and a late packet are silent. -/
+example :
+    (run Ex.base2 [.close 1, .close 1, .packet 1 .pingreq]).2 =
+      [[.closed 1,
+        .send 2 (.publish { qos := 1, topic := Ex.tW, pktid := 2, payload := [1] }),
+        .call 1000 { qos := 0, topic := Ex.tW, pktid := 2, payload := [1] }], [], []] := by decide
+
+/-! ### 3. the will is the one of the current CONNECT -/
+
+/-- After an accepted CONNECT — on a new session object or on a resumed one —
+the connection is live, its session object resolves, and that object's will
+flag and will message are those built from THIS CONNECT (`initWill`), not from
+any earlier one. -/
+theorem C09_will_is_current_connect (b : B) (c : Nat) (req : Connect) (authOk : Bool)
+    (h : ∃ sp, Out.send c (.connack sp 0) ∈ (first b c (.connect req) authOk).2) :
+    ∃ cn s, (first b c (.connect req) authOk).1.getConn c = some cn ∧ cn.alive = true ∧
+      (first b c (.connect req) authOk).1.getSess cn.sess = some s ∧
+      s.willFlag = req.will.isSome ∧ s.will = initWill req := by
+  have ha := (accepts_iff_emits b c (.connect req) authOk).mpr h
+  rw [first_accepted b c req authOk ha]
+  exact ⟨_, _, accepted_getConn b c req, rfl, accepted_getSess b c req, (acceptedSess_will b c req).1,
+    (acceptedSess_will b c req).2⟩
+
+/-- The will message built from a CONNECT carries its will topic, payload, QoS
+and retain flag (for a will topic that is a valid topic name; otherwise
+`SetTopic` refuses and the message keeps an empty topic). -/
+theorem C09_initWill_fields (req : Connect) (w : Will) (h : req.will = some w) (hv : validTopic w.topic = true) :
+    initWill req = some ⟨{ qos := w.qos, retain := w.retain, topic := w.topic, payload := w.payload }, true⟩ ∧
+    (req.will = none → initWill req = none) :=
+  ⟨initWill_some req w h hv, fun hn => by rw [hn] at h; cases h⟩
+
+/-- Together: if the connection ends abnormally right after its accepted
+CONNECT with will `(T, p, q, r)`, exactly that message goes through the publish
+path — fresh and resumed sessions alike. -/
+theorem C09_current_will_published (b : B) (c : Nat) (req : Connect) (authOk : Bool) (w : Will)
+    (h : ∃ sp, Out.send c (.connack sp 0) ∈ (first b c (.connect req) authOk).2)
+    (hw : req.will = some w) (hv : validTopic w.topic = true) :
+    ∃ s, (stop (first b c (.connect req) authOk).1 c).2 =
+      .closed c :: (onPublish (stopBase (first b c (.connect req) authOk).1 c s)
+        ⟨{ qos := w.qos, retain := w.retain, topic := w.topic, payload := w.payload }, true⟩).2.2.1 := by
+  obtain ⟨cn, s, hc, ha, hs, hf, hwl⟩ := C09_will_is_current_connect b c req authOk h
+  refine ⟨s, ?_⟩
+  rw [initWill_some req w hw hv] at hwl
+  rw [hw] at hf
+  exact stop_out_will _ c cn s _ hc ha hs hf hwl
+
+/-- non-vacuity (resumed session): connection 1 drops, the client returns as
+connection 3 with CleanSession=0 and a different will (topic "x", retained,
+QoS 0), SessionPresent=1; when 3 drops, the new will is published (retained on
+"x"; nobody listens) — not the first one again. -/
+example :
+    let req := Ex.conn Ex.idA false (some ⟨[120], [5], 0, true⟩)
+    let b := (run Ex.base2 [.close 1]).1
+    (first b 3 (.connect req) true).2 = [.send 3 (.connack true 0)] ∧
+    ((first b 3 (.connect req) true).1.getSess 1).map (·.will) =
+      some (some ⟨{ qos := 0, retain := true, topic := [120], payload := [5] }, true⟩) ∧
+    (stop (first b 3 (.connect req) true).1 3).2 = [.closed 3] ∧
+    ((stop (first b 3 (.connect req) true).1 3).1.topics.retained [120]).map (·.map (·.payload)) = some [[5]] := by
+  decide
+
 end Mqtt.Properties.C09
